@@ -5,10 +5,11 @@ from pyvc.arrays import Arr, fresh_symbolic
 from pyvc.values import Num, to_z3
 
 
-def sym_diagram(eng, name, width=2, finite=True, lo=0, param=True):
-    """(n, width) float array of uninterpreted contents with symbolic n >= lo; buffer origin 'param:<name>'"""
+def sym_diagram(eng, name, width=2, finite=True, lo=0, param=True, dtype="float"):
+    """(n, width) array of uninterpreted contents (float by default; dtype='int' for integer-typed diagrams) with symbolic n >= lo;
+    buffer origin 'param:<name>'"""
     n = eng.fresh_int("n_" + name, lo=lo)
-    a = fresh_symbolic(name, (n, width), dtype="float", origin=("param:" + name) if param else None, finite=finite, eng=eng)
+    a = fresh_symbolic(name, (n, width), dtype=dtype, origin=("param:" + name) if param else None, finite=finite, eng=eng)
     return a, n
 
 
